@@ -234,9 +234,20 @@ func init() {
 			hn, _ := json.Marshal(normAST(hast))
 			// documents: a stride through the vector, always including one accepted and one rejected document when there are any
 			var dsel []int
-			for di := ci % *docStride; di < len(c.Verdicts); di += *docStride {
+			stride := *docStride
+			nsc := 0
+			for _, p := range c.Schema.Props {
+				if p.Sc {
+					nsc++
+				}
+			}
+			if nsc >= 2 {
+				stride = 1 // several key shortcuts in one object: which of them a key belongs to must not depend on the order of the document
+			}
+			for di := ci % stride; di < len(c.Verdicts); di += stride {
 				dsel = append(dsel, di)
 			}
+			_ = stride
 			for _, want := range []int{1, 0} {
 				for di, v := range c.Verdicts {
 					if v == want {
